@@ -121,7 +121,9 @@ impl std::fmt::Display for Stubborn<'_> {
 /// what `Driver::FmtPad` offers for a given text
 pub fn fmt_pad_bytes(text: &str) -> Vec<u8> {
     let w = text.chars().count() + 2;
-    format!("[{:>w$}]{}{:?}", text, 'c', 'd', w = w).into_bytes()
+    // a fill character and `char` arguments from every UTF-8 length, among them the Latin-1 range (one byte in
+    // Latin-1, two in UTF-8) - all of them reach the writer through `fmt::Write::write_char`
+    format!("[{:\u{b7}>w$}]{}{}{}{}{:?}", text, 'c', '\u{e9}', '\u{4e16}', '\u{1f600}', 'd', w = w).into_bytes()
 }
 
 /// What the stream under test is supposed to do with the bytes.
@@ -497,7 +499,7 @@ pub fn run_case(mode: Mode, input: &[u8], driver: Driver, script: Script) -> (Re
                     Driver::FmtPad => {
                         let t = pad_text.unwrap_or("");
                         let w = t.chars().count() + 2;
-                        write!(stream, "[{:>w$}]{}{:?}", t, 'c', 'd', w = w)
+                        write!(stream, "[{:\u{b7}>w$}]{}{}{}{}{:?}", t, 'c', '\u{e9}', '\u{4e16}', '\u{1f600}', 'd', w = w)
                     }
                     Driver::WriteAll => stream.write_all(input),
                     Driver::WriteFmt(cut) => {
